@@ -213,8 +213,14 @@ LOOP:
 			if offset > hw {
 				break LOOP
 			}
+			key := ms.Message().Key()
+			if key == nil {
+				// Messages with no key are always retained. Don't let them
+				// share an entry with messages that have an empty key.
+				continue
+			}
 			curr, loaded := keyOffsets.LoadOrStore(
-				string(ms.Message().Key()), &keyOffset{offset: offset})
+				string(key), &keyOffset{offset: offset})
 			if loaded {
 				curr.(*keyOffset).set(offset)
 			}
